@@ -10,8 +10,8 @@ use super::exporter::ObservableState;
 macro_rules! format_bool {
     ($value:expr) => {
         match $value {
-            true => 0,
-            false => 1,
+            true => 1,
+            false => 0,
         }
     };
 }
